@@ -1178,8 +1178,17 @@ class Ctx:
                 self.obligations.append((label, "concrete", 0.0))
                 self._twin(label, twin, logic)
                 return True
-            m = self.get_model()
-            vals = self.model_values(m) if m is not None else None
+            try:
+                m = self.get_model()
+            except PathAbort:
+                m = None
+            if m is None:
+                # the path condition itself could not be decided (solver 'unknown' / infeasible after all): nothing can be
+                # concluded from a failure observed on such a path
+                self.obligations.append((label, "unknown", 0.0))
+                self.note(f"{label}: failure on a path whose feasibility the solver could not decide (inconclusive)")
+                return False
+            vals = self.model_values(m)
             self.obligations.append((label, "sat", 0.0))
             self.violations.append(Violation(label, _fmt(detail), vals, sig=sig))
             return False
